@@ -344,6 +344,21 @@ def build_templates():
     TT["np.histogram_range_qq"] = T(lambda A, p: np.histogram(A["x"], bins=2, range=(A["y"], A["y"] + A["y"])), ("x", "y"), cat="func")
     TT["np.histogram_bins_arr"] = T(lambda A, p: np.histogram(A["x"], bins=A["y"]), ("x", "y"), cat="func")
     TT["np.histogram_bin_edges_range"] = T(lambda A, p: np.histogram_bin_edges(A["x"], bins=2, range=(A["y"], 50.0)), ("x", "y"), cat="func")
+    # degenerate parameters: NumPy still returns a NEW array for each of these (np.diff(n=0), which NumPy documents to
+    # return its input as-is, and the view-returning functions are deliberately not here); a handler with a fast path
+    # for "nothing to do" must not hand back the caller's buffer
+    TT["np.concatenate_single"] = T(lambda A, p: np.concatenate([A["x"]]), ("x",), cat="func")
+    TT["np.stack_single"] = T(lambda A, p: np.stack([A["x"]]), ("x",), cat="func")
+    TT["np.tile_1"] = T(lambda A, p: np.tile(A["x"], 1), ("x",), cat="func")
+    TT["np.pad_0"] = T(lambda A, p: np.pad(A["x"], 0), ("x",), cat="func")
+    TT["np.around_0"] = T(lambda A, p: np.around(A["x"], 0), ("x",), cat="func")
+    TT["np.diff_n2"] = T(lambda A, p: np.diff(A["x"], n=2), ("x",), cat="func")
+    TT["np.append_empty"] = T(lambda A, p: np.append(A["x"], A["x"][:0]) if A["x"].ndim else np.append(A["x"], A["x"]), ("x",), cat="func")
+    TT["np.where_true"] = T(lambda A, p: np.where(True, A["x"], A["y"]), ("x", "y"), cat="func")
+    TT["np.clip_wide"] = T(lambda A, p: np.clip(A["x"], A["x"].min(), A["x"].max()), ("x",), cat="func")
+    TT["np.take_all"] = T(lambda A, p: np.take(A["x"], np.arange(A["x"].size)), ("x",), cat="func")
+    TT["np.cumsum_axis0"] = T(lambda A, p: np.cumsum(A["x"], axis=0), ("x",), cat="func")
+    TT["np.sort_axis0"] = T(lambda A, p: np.sort(A["x"], axis=0), ("x",), cat="func")
     TT["np.pad"] = T(lambda A, p: np.pad(A["x"], 1), ("x",), cat="func")
     TT["np.tile"] = T(lambda A, p: np.tile(A["x"], 2), ("x",), cat="func")
     TT["ustack"] = T(lambda A, p: unyt.ustack([A["x"], A["y"]]), ("x", "y"), cat="func")
@@ -1024,7 +1039,16 @@ class Sim18:
                                                                 "np.histogram_range_qq", "uconcatenate", "ustack", "np.concatenate",
                                                                 "np.stack", "np.vstack", "np.hstack", "np.where", "np.clip",
                                                                 "np.insert", "np.append", "np.pad", "np.tile", "np.sort",
-                                                                "np.cumsum", "np.diff", "np.around", "np.take")):
+                                                                "np.cumsum", "np.diff", "np.around", "np.take",
+                                                                "np.concatenate_single", "np.stack_single", "np.tile_1", "np.pad_0",
+                                                                "np.around_0", "np.diff_n2", "np.append_empty", "np.where_true",
+                                                                "np.clip_wide", "np.take_all", "np.cumsum_axis0", "np.sort_axis0",
+                                                                "np.nan_to_num", "np.copy", "np.unique", "np.gradient", "np.ediff1d",
+                                                                "np.cumprod", "np.linspace", "np.interp", "np.select", "np.outer",
+                                                                "np.cross", "np.kron", "np.union1d", "np.intersect1d", "uvstack",
+                                                                "uhstack", "ucross", "uunion1d", "uintersect1d", "unyt_array([x,y])")):
+            # (the constructors unyt_array(x) / unyt_array(x, u) / unyt_quantity(x) are not here: like np.asarray they
+            # wrap an existing array without copying, and the property does not list them among the copying calls)
             self.result_then_inplace(op, t, res, after)
         return out
 
